@@ -7,37 +7,8 @@ import subprocess
 
 HERE = os.path.dirname(os.path.dirname(os.path.abspath(__file__)))
 
-# id -> (technique, level text, level note, design section)
-CHECKS = {
-    "C09": (
-        "shadow-model runtime monitor (BFS over recorded edge list) on exhaustive+random insertion histories, repeated under ASan+UBSan",
-        "Every is_reachable answer for every ordered node pair is compared with a from-scratch BFS after insertion steps, "
-        "for all op sequences over <=3 nodes up to a bound, all digraphs on 4 nodes in several orders and random histories "
-        "up to 400 nodes crossing 64-bit bucket boundaries; the same workload runs against an ASan+UBSan build. Held on what was explored, not a proof.",
-        "Trusts the harness BFS as the definition of reachability and pybind11's marshalling; sanitizer covers only typegraph C++ code reached.",
-        "C09"),
-    "C07": (
-        "differential runtime oracle: declarative explaining-path reference evaluated on the graph read back from the live Program; exhaustive tiny graphs + random + live VM graphs; ASan+UBSan repeat",
-        "HasCombination/IsVisible/Filter/Bindings/CanHaveCombination are compared, for every node and every binding subset of size<=3, with a cache-free "
-        "reference of the property's own definition: exact equality on acyclic condition-free graphs (n=2 complete, n=3 enumerated slice, random DAGs), "
-        "explained=>accepted on acyclic graphs with conditions, and the reachability / subset / CanHave laws on all graphs including live typegraphs of real "
-        "VM analyses. One listed known finding (cycles through conditional nodes). Held on what was explored.",
-        "Trusts the harness reference model (vf/oracle/tg.py) as the meaning of the property and the public graph attributes as a faithful export.",
-        "C07"),
-    "C08": (
-        "history monitor with executable model: every query on a long-lived Program is compared with a replica rebuilt from the recorded op log (and re-asked); solver-instance counter attributes stale answers to a mutator; ASan+UBSan repeat",
-        "Thousands of short random histories over every public mutator and query, biased to query->mutation->same-query, each query checked against a from-scratch "
-        "replica; found and led to three fix: commits (source-set pointer ordering, AddOrigin(SourceSet) and set_condition not invalidating the solver). Sampled histories, not all.",
-        "Trusts that replaying the mutating ops reproduces 'a freshly built copy'; pybind wrappers are part of the system under test.",
-        "C08"),
-    "C01": (
-        "differential runtime oracle: CPython execution under sys.setprofile vs pytype's stub, structural membership of every observed value; AST delta-debugging of witnesses; mechanism diagnosis from the live typegraph and CPython object identity",
-        "Generated loop-free programs are executed by CPython and analysed by pytype; every module-level name, instance attribute and module-level call result must be "
-        "admitted by its declared type (don't-know resolves to admit). Violations are minimised and attributed to an observed mechanism; led to fix e0e6e69 "
-        "(simplify_variable) and two listed known findings. Held on the programs explored.",
-        "Trusts CPython as ground truth and the harness membership oracle (vf/oracle/admit.py); only the generated fragment; stdlib imports are Any (empty typeshed).",
-        "C01"),
-}
+ENTRIES = json.load(open(os.path.join(HERE, "tools", "manifest_entries.json")))
+CHECKS = {k: (v["technique"], v["text"], v["note"], k) for k, v in ENTRIES.items() if not v.get("disabled")}
 
 PENDING_REASON = "check not built yet in this round (planned: see DESIGN.md section for this property)"
 
